@@ -10,6 +10,11 @@ def p_text(I, args, kwargs, node):
         return VStr(v.t)
     if isinstance(v, VAny):
         return VStr(z3.If(Val.is_tok(v.t), TokenSort.s(Val.t(v.t)), Val.s(v.t)))
+    from .values import VNone, VOpt
+    if isinstance(v, VNone):
+        return VStr('')   # callers guard with `x is None or ...`
+    if isinstance(v, VOpt):
+        return p_text(I, [v.val], kwargs, node)
     raise Unsupported('text(%r)' % (v,))
 
 
